@@ -2,7 +2,7 @@
 //! shrinking, replay files, evidence, known findings.
 
 use crate::model::{hash_str, Fnv};
-use proptest::strategy::{BoxedStrategy, Strategy};
+use proptest::strategy::BoxedStrategy;
 use proptest::test_runner::{Config, RngSeed, TestCaseError, TestError, TestRunner};
 use serde::de::DeserializeOwned;
 use serde::Serialize;
@@ -64,6 +64,8 @@ pub struct Stats {
     pub labels: BTreeMap<String, u64>,
     pub counters: BTreeMap<String, u64>,
     pub samples: Vec<Value>,
+    /// first generated case (used as sample when no non-trivial sample was recorded)
+    pub first_case: Option<Value>,
     pub frozen: bool,
 }
 
@@ -108,6 +110,9 @@ impl Stats {
             if self.samples.len() < 5 {
                 self.samples.push(s);
             }
+        }
+        if self.first_case.is_none() {
+            self.first_case = o.first_case;
         }
     }
 }
@@ -189,6 +194,9 @@ where
             s.frozen = true;
         } else {
             s.cases += 1;
+            if s.first_case.is_none() {
+                s.first_case = Some(serde_json::to_value(&c).unwrap_or(Value::Null));
+            }
         }
         match check(&c, &mut s) {
             Ok(()) => Ok(()),
@@ -419,6 +427,9 @@ pub fn run_property(p: &dyn Property, tier: Tier, seed: u64) -> RunOutcome {
     let mut harness_errors = 0;
     let mut seen: BTreeSet<String> = BTreeSet::new();
     let mut known_printed: BTreeSet<String> = BTreeSet::new();
+    // one report per failure class: keep the smallest case of each signature
+    failures.sort_by_key(|(case, fl, _)| (fl.signature.clone(), serde_json::to_string(case).map(|s| s.len()).unwrap_or(0)));
+    failures.dedup_by(|b, a| a.1.signature == b.1.signature);
     for (case, fl, origin) in &failures {
         if fl.signature.starts_with("harness/") || fl.signature.starts_with("flaky/") {
             eprintln!("INCONCLUSIVE {}: {} ({origin})", fl.signature, fl.message);
@@ -475,6 +486,13 @@ pub fn run_property(p: &dyn Property, tier: Tier, seed: u64) -> RunOutcome {
     coverage.insert("generated_cases".into(), json!(total.cases));
     coverage.insert("distinct_nontrivial".into(), json!(total.nontrivial.len()));
     coverage.insert("rule".into(), json!(p.rule()));
+    if total.samples.is_empty() {
+        if let Some(fc) = total.first_case.take() {
+            total.samples.push(json!({"note": "no non-trivial sample recorded; first generated case", "case": fc}));
+        } else {
+            total.samples.push(json!({"note": "no generated case ran"}));
+        }
+    }
     coverage.insert("samples".into(), json!(total.samples));
     coverage.insert("labels".into(), json!(total.labels));
     coverage.insert("counters".into(), json!(total.counters));
